@@ -9,13 +9,13 @@ CONSTANTS
   MIds = {1, 2, 3}
   MVoters = {1, 2, 3}
   MLearners = {}
-  PreVoteOn = TRUE
-  CheckQuorumOn = TRUE
-  MaxTerm = 3
+  PreVoteOn = FALSE
+  CheckQuorumOn = FALSE
+  MaxTerm = 2
   MaxLog = 2
   MaxNet = 4
   MaxCrashes = 0
-  MaxProposals = 1
+  MaxProposals = 0
   MaxDepth = 60
   AllowDrop = TRUE
   AllowDup = FALSE
@@ -25,11 +25,11 @@ CONSTANTS
   Fine = FALSE
   EagerReady = TRUE
   QuiescentTicks = TRUE
-  MaxLeaderTicks = 1
-  TickNodes = {1, 2, 3}
-  MaxDrops = 2
-  MaxTransfers = 0
-  TransferTargets = {}
+  MaxLeaderTicks = 0
+  TickNodes = {1}
+  MaxDrops = 1
+  MaxTransfers = 1
+  TransferTargets = {2, 3}
   MaxConf = 0
   ConfMenuIds = {}
   MaxReads = 0
